@@ -506,3 +506,43 @@ package storage
 //@   ensures version == s.cs.Version && s.cs.Version == old(s.cs.Version) + 1 && s.cs.Version == ivVersion(s.cs.Delivered)         // C09.commit-version
 //@   ensures forall k string :: verVal(s.cs)[version][k] == (bHas(s)[k] ? bVal(s)[k] : bytes_nil())                               // C09.commit-version
 //@   ensures forall v int :: v != version ==> verVal(s.cs)[v] == old(verVal(s.cs))[v]                                             // C09.versions-immutable
+
+// ---------------------------------------------------------------- reopening the database (IAVL assumed: T-IAVL)
+//
+// dbKept(db)[v] / dbVer(db)[v]: the versions a database holds and their contents (what the previous process saved and did
+// not delete). Load() makes every one of them readable through the new tree; LazyLoadVersion / LoadVersion only the target
+// (older ones read as empty): that difference is all these two contracts say. loadDB must use the former: "earlier versions
+// keep returning their old values" also after a restart.
+//@ ghost func dbKept(db db.DB) array[int]bool
+//@ ghost func dbVer(db db.DB) array[int]array[string]bytes
+//@ ghost func dbLatest(db db.DB) int
+//@ model ivDB(MutableTree) db.DB
+//@ model ivLoaded(MutableTree) bool
+//@ assume func github.com/tendermint/iavl.NewMutableTree
+//@   modifies nothing
+//@   ensures result1 == nil && result0 != nil && fresh(result0) && ivDB(result0) == db
+//@ assume func github.com/tendermint/iavl.(*MutableTree).Load
+//@   modifies ivVersion(self), ivVer(self), ivKept(self), ivHas(self), ivVal(self), ivLoaded(self)
+//@   ensures ivLoaded(self) == (result1 == nil)
+//@   ensures result1 == nil ==> result0 == dbLatest(ivDB(self)) && ivVersion(self) == result0 && ivKept(self) == dbKept(ivDB(self)) && (forall v int :: dbKept(ivDB(self))[v] ==> ivVer(self)[v] == dbVer(ivDB(self))[v])
+//@ assume func github.com/tendermint/iavl.(*MutableTree).LazyLoadVersion
+//@   modifies ivVersion(self), ivVer(self), ivKept(self), ivHas(self), ivVal(self), ivLoaded(self)
+//@   ensures result1 == nil ==> ivVersion(self) == result0
+//@ assume func github.com/tendermint/iavl.(*MutableTree).LoadVersion
+//@   modifies ivVersion(self), ivVer(self), ivKept(self), ivHas(self), ivVal(self), ivLoaded(self)
+//@   ensures result1 == nil ==> ivVersion(self) == result0
+//@ assume func github.com/tendermint/iavl.(*MutableTree).Hash
+//@   modifies nothing
+//@ assume func github.com/tendermint/iavl.(*ImmutableTree).Version
+//@   modifies nothing
+//@ assume func github.com/tendermint/iavl.(*ImmutableTree).Height
+//@   modifies nothing
+
+// (no modifies clause: the tree is a new object and the callers of loadDB are constructors that are not under contract)
+//@ func (*ChainState).loadDB
+//@   requires state != nil
+//@   dyncalls pure
+// after a reopen every version the database retains reads back with the contents it was saved with (when the load
+// succeeded: the code logs a load error and carries on with an empty tree)
+//@   ensures state.Delivered != nil && ivDB(state.Delivered) == db                                                                                // C09.reopen-keeps-versions
+//@   ensures ivLoaded(state.Delivered) ==> ivKept(state.Delivered) == dbKept(db) && (forall v int :: dbKept(db)[v] ==> verVal(state)[v] == dbVer(db)[v])    // C09.reopen-keeps-versions
